@@ -1305,30 +1305,53 @@ impl KeyFlags {
         })
     }
 
+    /// A flag set through the API must be written: the stored length (kept for parsed flags, to
+    /// roundtrip them) grows to cover the octet the flag lives in, so that what is written parses
+    /// back to an equal value.
+    fn grow_to_fit(&mut self) {
+        let [a, b] = self.known.into_bits().to_le_bytes();
+        let needed = if b != 0 {
+            2
+        } else if a != 0 {
+            1
+        } else {
+            0
+        };
+        self.original_len = self.original_len.max(needed);
+    }
+
     pub fn set_certify(&mut self, val: bool) {
         self.known.set_certify(val);
+        self.grow_to_fit();
     }
     pub fn set_encrypt_comms(&mut self, val: bool) {
         self.known.set_encrypt_comms(val);
+        self.grow_to_fit();
     }
     pub fn set_encrypt_storage(&mut self, val: bool) {
         self.known.set_encrypt_storage(val);
+        self.grow_to_fit();
     }
     pub fn set_sign(&mut self, val: bool) {
         self.known.set_sign(val);
+        self.grow_to_fit();
     }
     pub fn set_shared(&mut self, val: bool) {
         self.known.set_shared(val);
+        self.grow_to_fit();
     }
     pub fn set_authentication(&mut self, val: bool) {
         self.known.set_authentication(val);
+        self.grow_to_fit();
     }
     #[cfg(feature = "draft-wussler-openpgp-forwarding")]
     pub fn set_draft_decrypt_forwarded(&mut self, val: bool) {
         self.known.set_draft_decrypt_forwarded(val);
+        self.grow_to_fit();
     }
     pub fn set_group(&mut self, val: bool) {
         self.known.set_group(val);
+        self.grow_to_fit();
     }
 
     /// Sets reserved flag 0x0004 also known as ADSK flag.
@@ -1339,10 +1362,12 @@ impl KeyFlags {
     /// <https://www.gnupg.org/blog/20230321-adsk.html>
     pub fn set_adsk(&mut self, val: bool) {
         self.known.set_adsk(val);
+        self.grow_to_fit();
     }
 
     pub fn set_timestamping(&mut self, val: bool) {
         self.known.set_timestamping(val);
+        self.grow_to_fit();
     }
 
     pub fn certify(&self) -> bool {
